@@ -454,7 +454,7 @@ func TestC10(t *testing.T) {
 		}
 		return
 	}
-	dl := vk.NewDeadline(vk.Pick(run, 10*time.Minute, 100*time.Minute))
+	dl := vk.NewDeadline(vk.Pick(run, 10*time.Minute, 45*time.Minute))
 	var cases []c10Case
 	// one store holds more than MaxRangeRequestSize headers so that the 64-header cap is observable
 	stores := [][2]uint64{{5, 30}, {0, 0}, {1, 12}, {20, 150}}
